@@ -99,6 +99,9 @@ def forbidden_gate(extra_dirs=()):
     (comments and string literals are ignored)."""
     bad = []
     roots = [COQ, dyn_dir()] + list(extra_dirs)
+    only = os.environ.get("VERIF_GATE_DIRS")
+    if only:  # development aid only: restrict the gate to some sub-directories of coq/
+        roots = [os.path.join(COQ, d) for d in only.split()] + [os.path.join(COQ, "Properties"), os.path.join(COQ, "Inst")]
     for root in roots:
         for dp, _, fns in os.walk(root):
             for fn in fns:
@@ -122,35 +125,40 @@ def coq_flags(extra=()):
     return fl
 
 
+STATIC_EXCLUDE = ("Inst", "Properties", "Generated", "Cases")
+
+
 def static_files():
-    """The hand-written theory, in _CoqProject order (excludes Properties/, Generated/, Cases/)."""
+    """The hand-written static theory: every .v under coq/ except the per-run directories
+    Inst/ (reflection instances), Properties/ (property theorems), Generated/, Cases/."""
     files = []
-    with open(os.path.join(COQ, "_CoqProject")) as f:
-        for line in f:
-            line = line.strip()
-            if line.endswith(".v"):
-                files.append(line)
-    return files
+    for dp, dns, fns in os.walk(COQ):
+        rel = os.path.relpath(dp, COQ)
+        top = rel.split(os.sep)[0]
+        if top in STATIC_EXCLUDE:
+            dns[:] = []
+            continue
+        for fn in fns:
+            if fn.endswith(".v"):
+                files.append(os.path.normpath(os.path.join(rel, fn)))
+    return sorted(files)
 
 
-def coq_static_build(timeout=3000):
-    """Full .vo build of the static theory. Returns (ok, output)."""
+def coq_static_build(targets=None, timeout=3000):
+    """Full .vo build (never -vos) of the static theory, or of the given .vo targets and what
+    they depend on.  _CoqProject is regenerated from the directory scan.  Returns (ok, output)."""
     with lock("coq"):
         t0 = time.time()
-        if not os.path.exists(os.path.join(COQ, "Makefile")) or os.path.getmtime(
-            os.path.join(COQ, "Makefile")
-        ) < os.path.getmtime(os.path.join(COQ, "_CoqProject")):
-            r = subprocess.run(
-                ["coq_makefile", "-f", "_CoqProject", "-o", "Makefile"],
-                cwd=COQ, capture_output=True, text=True,
-            )
+        proj = "-Q . MV\n" + "\n".join(static_files()) + "\n"
+        changed = write_if_changed(os.path.join(COQ, "_CoqProject"), proj)
+        if changed or not os.path.exists(os.path.join(COQ, "Makefile")):
+            r = subprocess.run(["coq_makefile", "-f", "_CoqProject", "-o", "Makefile"],
+                               cwd=COQ, capture_output=True, text=True)
             if r.returncode != 0:
                 return False, r.stdout + r.stderr
-        r = subprocess.run(
-            ["timeout", str(timeout), "make", "-j%d" % NCPU],
-            cwd=COQ, capture_output=True, text=True,
-        )
-        log("[coq] static build rc=%d %.1fs" % (r.returncode, time.time() - t0))
+        cmd = ["timeout", str(timeout), "make", "-j%d" % NCPU] + list(targets or [])
+        r = subprocess.run(cmd, cwd=COQ, capture_output=True, text=True)
+        log("[coq] static build %s rc=%d %.1fs" % (" ".join(targets or ["(all)"]), r.returncode, time.time() - t0))
         return r.returncode == 0, r.stdout[-4000:] + r.stderr[-8000:]
 
 
@@ -248,6 +256,36 @@ def coq_eval_many(named_texts, extra=(), timeout=900):
         paths.append(p)
     res = coqc_many(paths, tuple(extra) + tuple(dyn_flags()), timeout)
     return [res[p] for p in paths]
+
+
+def coq_case_files(name, preamble, cases, per_file=250, timeout=900):
+    """Correspondence by evaluation inside Coq.
+    cases: list of (case_id:int, term:str) with `term` a closed Coq expression of type bool
+    (the agreement relation applied to the input and to the implementation's output).
+    Writes shards <dyn>/Cases/<name>_<k>.v = preamble + one Eval, compiles them in parallel and
+    returns (failing_ids, errors) where errors lists shards that did not compile."""
+    shards = [cases[i:i + per_file] for i in range(0, len(cases), per_file)]
+    texts = []
+    for k, sh in enumerate(shards):
+        body = [preamble, "From MV Require Import Base.CaseUtil.", "Set Printing Width 1000000.", "Set Printing Depth 1000000."]
+        for cid, term in sh:
+            body.append("Definition case_%d : bool := %s." % (cid, term))
+        body.append("Eval vm_compute in (failing [%s])." % "; ".join("(%d%%nat, case_%d)" % (cid, cid) for cid, _ in sh))
+        texts.append(("%s_%d" % (name, k), "\n".join(body) + "\n"))
+    res = coq_eval_many(texts, timeout=timeout)
+    failing, errors = [], []
+    for (nm, _), (rc, out) in zip(texts, res):
+        if rc != 0:
+            errors.append({"shard": nm, "out": out[-2000:]})
+            continue
+        lists = parse_eval_lists(out)
+        if len(lists) != 1:
+            errors.append({"shard": nm, "out": "unparsable: " + out[-500:]})
+            continue
+        inner = lists[0].strip()
+        if inner:
+            failing += [int(x.replace("%nat", "")) for x in inner.split(";")]
+    return failing, errors
 
 
 def parse_eval_lists(out):
